@@ -79,12 +79,54 @@ def type_candidates(tbl, rng):
     return sorted(t) + extra
 
 
+def one_byte_off(v, rng, pos=None):
+    """v with exactly one byte changed"""
+    pos = rng.randrange(len(v)) if pos is None else pos
+    return v[:pos] + bytes([v[pos] ^ rng.choice([0x01, 0x80, 0xFF, 1 << rng.randrange(8)])]) + v[pos + 1:]
+
+
+def fbtv_values(tbl, rng):
+    """values for Find By Type Value «Primary Service», per service of the table (primary AND secondary), by class:
+    a  the 2 byte UUID of a 16 bit service            b  its 16 byte Bluetooth-base expansion (octet-wise: no match)
+    c  b with one byte changed (base part, UUID part, the two zero bytes)
+    d  first 2 bytes / bytes 12..13 of a 128 bit service UUID as a 2 byte value (a prefix is no match)
+    e  the 16 byte UUID of a 128 bit service          f  e / a with one byte changed"""
+    out = []
+    for x in tbl.services:
+        u = x["uuid"]
+        if len(u) == 2:
+            b = BASE12 + u + b"\x00\x00"
+            out += [("a", u), ("b", b), ("c", one_byte_off(b, rng, rng.randrange(12))), ("c", one_byte_off(b, rng, rng.choice([12, 13]))),
+                    ("c", one_byte_off(b, rng, rng.choice([14, 15]))), ("f", one_byte_off(u, rng))]
+        elif len(u) == 16:
+            out += [("d", u[:2]), ("d", u[12:14]), ("e", u), ("f", one_byte_off(u, rng)), ("f", one_byte_off(u, rng, rng.choice([0, 1])))]
+    return out
+
+
+def fbtv_targeted(tbl, rng):
+    """every value class for every service once over the whole handle range and once over exactly the service's own range"""
+    out = []
+    vals = fbtv_values(tbl, rng)
+    seen = set()
+    for cls, v in vals:
+        if (cls, v) in seen:
+            continue
+        seen.add((cls, v))
+        out.append((rng.choice(MTUS), bytes([0x06]) + le16(1) + le16(0xFFFF) + le16(0x2800) + v))
+    for x in tbl.services:
+        u = x["uuid"]
+        for v in ([u, BASE12 + u + b"\x00\x00"] if len(u) == 2 else [u, u[:2]]):
+            out.append((23, bytes([0x06]) + le16(x["first"]) + le16(x["last"]) + le16(0x2800) + v))
+    return out
+
+
 def gen_pdus(tbl, rng, pid, count, thorough):
     """structured stream: valid discovery requests with start/end on, just before and just behind
     every handle and inside every gap; ~12 % single-field mutations / malformed lengths"""
     B = boundaries(tbl)
     types = type_candidates(tbl, rng)
     svc_values = sorted({s["uuid"] for s in tbl.services}) + [le16(0x1899), bytes(rng.randrange(256) for _ in range(16))]
+    svc_classes = fbtv_values(tbl, rng)
     ops = {"C02": [0x04, 0x08, 0x08, 0x10], "C03": [0x10, 0x06, 0x06]}[pid]
     out = []
 
@@ -108,7 +150,9 @@ def gen_pdus(tbl, rng, pid, count, thorough):
             p += le16(0x2800) if r < 0.8 else (rng.choice([le16(0x2801), le16(0x2803), BASE12 + le16(0x2800) + b"\x00\x00"]))
         elif op == 0x06:
             r = rng.random()
-            p += (le16(0x2800) if r < 0.9 else rng.choice([le16(0x2801), le16(0x2803)])) + rng.choice(svc_values)
+            # half of the values by class (2 byte form, base-UUID expansion, one byte off, prefix of a 128 bit UUID, …)
+            v = rng.choice(svc_classes)[1] if svc_classes and rng.random() < 0.5 else rng.choice(svc_values)
+            p += (le16(0x2800) if r < 0.9 else rng.choice([le16(0x2801), le16(0x2803)])) + v
         return p
 
     for _ in range(count):
@@ -118,6 +162,8 @@ def gen_pdus(tbl, rng, pid, count, thorough):
         if rng.random() < 0.06:            # malformed length
             p = p[:rng.randrange(1, len(p))] if rng.random() < 0.5 else p + bytes(rng.randrange(256) for _ in range(rng.randrange(1, 4)))
         out.append((rng.choice(MTUS), p))
+    if pid == "C03":
+        out += fbtv_targeted(tbl, rng)
     if thorough:
         # exhaustive over all boundary pairs for the main request of every opcode
         for s in B:
@@ -303,6 +349,29 @@ def monitor_c03(tbl, mtu, p, rsp):
     return []
 
 
+def fbtv_class(tbl, val):
+    """what a Find By Type Value value is with respect to the services of the real table (distribution only)"""
+    for x in tbl.services:
+        if x["uuid"] == val:
+            return "exact-primary" if any(y["primary"] and y["uuid"] == val for y in tbl.services) else "exact-secondary"
+    for x in tbl.services:
+        u = x["uuid"]
+        if len(u) == 2 and val == BASE12 + u + b"\x00\x00":
+            return "base-expansion-of-" + ("primary" if x["primary"] else "secondary")
+    for x in tbl.services:
+        u = x["uuid"]
+        if len(u) == 16 and len(val) == 2 and val in (u[:2], u[12:14]):
+            return "part-of-128bit-uuid"
+    for x in tbl.services:
+        u = x["uuid"]
+        full = u if len(u) == 16 else BASE12 + u + b"\x00\x00"
+        if len(val) == len(u) and sum(a != b for a, b in zip(val, u)) == 1:
+            return "one-byte-off-uuid"
+        if len(val) == 16 and sum(a != b for a, b in zip(val, full)) == 1:
+            return "one-byte-off-expansion"
+    return "other-%d-bytes" % len(val)
+
+
 def check_groups(name, tbl, prim, items, ec, s, e, stop_at_size_change, mtu):
     by_first = {x["first"]: x for x in tbl.services}
     for first, last, uuid in items:
@@ -386,8 +455,11 @@ def run(ctx, pid):
     monitor = monitor_c02 if pid == "C02" else monitor_c03
     res.rule = ("per generated server type: dump the real attribute table, then send discovery requests (%s) built from that table: "
                 "start/end handles on, one before and one behind every attribute handle, in every handle gap, 0, 1, 0xFFFF; every attribute "
-                "type present plus absent / 128-bit-form / near-miss types; MTU 23..300; ~6 %% malformed lengths; thorough adds all "
-                "boundary start<=end pairs per opcode. Every response of the real l2cap_input is compared byte-wise with the Lean model and "
+                "type present plus absent / 128-bit-form / near-miss types; Find By Type Value values per service of the table, primary and "
+                "secondary: the 2 byte UUID, its 16 byte Bluetooth-base expansion, the expansion / the UUID with one byte changed, the "
+                "first two bytes and bytes 12..13 of a 128 bit UUID as 2 byte value, the 16 byte UUID - each class once per service "
+                "over the whole handle range and over the service's own range, and mixed into the random stream; MTU 23..300; ~6 %% "
+                "malformed lengths; thorough adds all boundary start<=end pairs per opcode. Every response of the real l2cap_input is compared byte-wise with the Lean model and "
                 "checked by an independent Python monitor against the property evaluated on the real table. distinct = distinct (server, PDU, MTU)"
                 % ("Find Information, Read By Type, Read By Group Type" if pid == "C02" else "Read By Group Type, Find By Type Value"))
     heads = ["server %d %s" % (k, F.decl_tokens(s)) for k, (_, s) in enumerate(fam)]
@@ -444,6 +516,8 @@ def run(ctx, pid):
             req = parse_req(p)
             if req:
                 res.count(t.end_class(req[2]))
+                if pid == "C03" and req[0] == 0x06 and req[3][:2] == le16(0x2800):
+                    res.count("fbtv_value_" + fbtv_class(t, req[3][2:]))
             for key, what in monitor(t, mtu, p, rsp):
                 res.failures.append({"key": key, "what": "S%d mtu %d request %s -> %s: %s" % (k, mtu, p.hex(), rsp.hex(), what),
                                      "ops": [heads[k], "pdu %d %s" % (mtu, p.hex())],
@@ -474,8 +548,14 @@ C03_THEOREMS = [P + t for t in ("read_by_group_only_primary", "find_by_type_valu
                                 "range_check", "ofDecl_WF",
                                 # completeness
                                 "read_by_group_complete", "groupCut_prefix", "groupCut_head", "groupLoop_out", "readByGroupType_view",
-                                "read_by_group_enumerate_all", "primaries_sorted")]
+                                "read_by_group_enumerate_all", "primaries_sorted",
+                                # completeness / enumeration, Find By Type Value (PropsFind.lean, EnumFind*.lean)
+                                "find_by_type_value_complete", "find_by_type_value_complete_bytes", "find_by_type_value_enumerate_all",
+                                "serviceRanges_spec", "find_by_type_value_ranges_sorted", "find_by_type_value_other_type",
+                                "find_by_type_value_other_length", "findLoop_out", "findByTypeValue_view", "candF_eq_candG",
+                                "groupEndIndex_of_lastIndex", "findByTypeValue_prefixResponder", "clientLoop_complete")]
 IMPORTS = ["BluetoeModel.AttDiscovery.Props", "BluetoeModel.AttDiscovery.PropsEnum", "BluetoeModel.AttDiscovery.PropsGroup",
+           "BluetoeModel.AttDiscovery.PropsFind",
            "BluetoeModel.AttHandles.Props"]
 
 PROPS = {
@@ -497,7 +577,7 @@ PROPS = {
         run=lambda ctx, replay_path=None: run(ctx, "C03"),
         level="proof",
         technique="Lean 4 loop-invariant proof over every table and service list (every reported group is a declared service whose declaration attribute has type «Primary Service», in range, with its real last handle) + differential correspondence with the real handlers",
-        level_text="For the fixed handlers (fixes/attdisc-01, -02): every group in a Read By Group Type «Primary Service» response and every range in a Find By Type Value «Primary Service» response is, for every table, service list, range and MTU, a declared service whose declaration attribute has type 0x2800 (never a secondary service), lies in the requested range, carries the service's UUID / the requested UUID and ends at the handle of the service's last attribute (soundness). Completeness, Read By Group Type: for every table whose service list partitions it (Db.SvcWF), the response is exactly groupCut(MTU-2) of the declared primary services whose first handle is in range - a non-empty prefix ending only at a service UUID of the other size or when the MTU is used up, nothing skipped - and Attribute Not Found iff there is none (read_by_group_complete, groupCut_prefix, groupCut_head); the Discover All Primary Services loop returns every primary service in range exactly once, in order (read_by_group_enumerate_all). Partial: completeness of Find By Type Value is checked by the monitor on the real code but not proved; declarations whose last handle is 0xFFFF are outside the model: known findings C03:last-handle-0xffff:*.",
+        level_text="For the fixed handlers (fixes/attdisc-01, -02): every group in a Read By Group Type «Primary Service» response and every range in a Find By Type Value «Primary Service» response is, for every table, service list, range and MTU, a declared service whose declaration attribute has type 0x2800 (never a secondary service), lies in the requested range, carries the service's UUID / the requested UUID and ends at the handle of the service's last attribute (soundness). Completeness, Read By Group Type: for every table whose service list partitions it (Db.SvcWF), the response is exactly groupCut(MTU-2) of the declared primary services whose first handle is in range - a non-empty prefix ending only at a service UUID of the other size or when the MTU is used up, nothing skipped - and Attribute Not Found iff there is none (read_by_group_complete, groupCut_prefix, groupCut_head); the Discover All Primary Services loop returns every primary service in range exactly once, in order (read_by_group_enumerate_all). Completeness, Find By Type Value: for every such table, range, 2- or 16-byte value and MTU >= 23 the response is exactly the first (MTU-1)/4 of the declared primary services whose declaration value equals the requested value octet-wise and whose first handle is in range (serviceRanges; found handle = first handle, group end handle = handle of the service's last attribute) - a prefix cut only by the MTU, nothing skipped - and Attribute Not Found iff there is none (find_by_type_value_complete, _complete_bytes for the response bytes, serviceRanges_spec); the Discover Primary Service by Service UUID loop returns every matching primary service in range exactly once, in order (find_by_type_value_enumerate_all); the full statements hold, no input class had to be excluded (another attribute type / value length: Error Response, find_by_type_value_other_type / _other_length). Partial: the client's byte parser is not modelled; Db.SvcWF is not derived for ofDecl d; declarations whose last handle is 0xFFFF are outside the model: known findings C03:last-handle-0xffff:*.",
         level_note="Trusted: Lean kernel + standard axioms; model = code as far as the differential check samples it; the secondary_service<> struct form does not compile inside a server, only service<…, is_secondary_service> is in the family.",
         design_ref="§5 C03",
         assumptions=["fixes/attdisc-01-end-handle-in-gap and -02-secondary-services applied (the check reports a VIOLATION on the unpatched tree)"],
